@@ -408,50 +408,69 @@ class CoreDriver:
 
     # -- projection --------------------------------------------------------------
     def snap(self):
+        """Project the implementation state.  Every part is read defensively: if an internal attribute is not
+        where it is expected the part is left out (flag false) and the specification skips that comparison -
+        verdicts then rest on the wire, the backend calls and the socket / listener / handle ledger alone."""
         w = self.w
         srv = w.server
         net = self.net
-        ac = srv.available_connections
-        used = -1 if ac.maximum_value is None else ac.maximum_value - ac.value
-        uused = []
-        for uid, uobj in w.users.items():
-            a = srv.user_manager.available_connections[uobj]
-            if a.maximum_value is not None:
-                uused.append([uid, a.maximum_value - a.value])
-        pool = []
-        if srv.available_data_ports is not None:
-            pool = sorted(p for _, p in srv.available_data_ports._queue)
-        byport = {c.cli_addr[1]: c.session for c in net.conns if c.kind == "ctl"}
-        table, sess = [], []
-        for conn in srv.connections.values():
-            fut = dict.get(conn, "client_port")
-            s = byport.get(fut.result()) if fut is not None and fut.done() else None
-            if s is None:
-                continue
-            table.append(s)
+        used, uused, pool, haspool = -1, [], [], False
+        try:
+            ac = srv.available_connections
+            used = -1 if ac.maximum_value is None else ac.maximum_value - ac.value
+        except Exception:
+            used = -1
+        try:
+            for uid, uobj in w.users.items():
+                a = srv.user_manager.available_connections[uobj]
+                if a.maximum_value is not None:
+                    uused.append([uid, a.maximum_value - a.value])
+        except Exception:
+            uused = []
+        try:
+            if srv.available_data_ports is not None:
+                pool = sorted(p for _, p in srv.available_data_ports._queue)
+                haspool = True
+        except Exception:
+            pool, haspool = [], False
+        table, sess, hastable = [], [], False
+        try:
+            byport = {c.cli_addr[1]: c.session for c in net.conns if c.kind == "ctl"}
+            for conn in srv.connections.values():
+                fut = dict.get(conn, "client_port")
+                s = byport.get(fut.result()) if fut is not None and fut.done() else None
+                if s is None:
+                    continue
+                table.append(s)
+                try:
+                    def val(name, default=None):
+                        f = dict.get(conn, name)
+                        return f.result() if f is not None and f.done() else default
 
-            def val(name, default=None):
-                f = dict.get(conn, name)
-                return f.result() if f is not None and f.done() else default
-
-            uobj = val("user")
-            uid = w.user_ids.get(id(uobj), "") if uobj is not None else ""
-            cwd = val("current_directory")
-            rn = val("rename_from")
-            if rn is None:
-                rnfr = ["~"]
-            else:
-                b, segs = w.ctl.vpath(rn)
-                rnfr = segs if b is not None else ["<escape>"] + segs
-            sess.append({"s": s, "user": uid, "logged": bool(val("logged", False)),
-                         "cwd": list(cwd.parts[1:]) if cwd is not None else [],
-                         "rnfr": rnfr, "rest": int(val("restart_offset", 0) or 0),
-                         "dc": dict.get(conn, "data_connection") is not None and dict.get(conn, "data_connection").done()})
+                    uobj = val("user")
+                    uid = w.user_ids.get(id(uobj), "") if uobj is not None else ""
+                    cwd = val("current_directory")
+                    rn = val("rename_from")
+                    if rn is None:
+                        rnfr = ["~"]
+                    else:
+                        b, segs = w.ctl.vpath(rn)
+                        rnfr = segs if b is not None else ["<escape>"] + segs
+                    dcf = dict.get(conn, "data_connection")
+                    sess.append({"s": s, "user": uid, "logged": bool(val("logged", False)),
+                                 "cwd": list(cwd.parts[1:]) if cwd is not None else [],
+                                 "rnfr": rnfr, "rest": int(val("restart_offset", 0) or 0),
+                                 "dc": dcf is not None and dcf.done()})
+                except Exception:
+                    pass
+            hastable = True
+        except Exception:
+            table, sess, hastable = [], [], False
         dsock = [c.session for c in net.conns if c.kind == "data" and not (c.srv.closing or c.srv.closed)]
         files = [h.session for h in w.ctl.open_handles()]
         lsn = [[l.owner, l.port] for l in net.open_listeners() if l.owner]
         gated = sorted({s for s, f in self.held.items() if not f.done()} | {s for s, f in self.lheld.items() if not f.done()})
-        net.log("Snap", used=used, uused=uused, pool=pool, table=sorted(table), dsock=sorted(dsock),
+        net.log("Snap", used=used, uused=uused, pool=pool, haspool=haspool, table=sorted(table), hastable=hastable, dsock=sorted(dsock),
                 files=sorted(files), lsn=sorted(lsn), sess=sess, gated=gated, hastree=True, tree=w.snapshot(),
                 ntasks=len(self.loop.all_tasks()))
 
@@ -507,7 +526,27 @@ def translate(events, world):
                 r["data"] = e["data"]
             out.append(r)
         elif ev == "Reply":
-            out.append({"ev": "Reply", "s": s, "t": t, "code": e["code"]})
+            r = {"ev": "Reply", "s": s, "t": t, "code": e["code"], "hasdir": False, "dir": [], "hasfacts": False, "ftype": "", "fsize": 0}
+            lines = e.get("lines") or []
+            if e["code"] == "257" and lines and lines[-1].count('"') >= 2:
+                txt = lines[-1]
+                inner = txt[txt.index('"') + 1: txt.rindex('"')].replace('""', '"')
+                if inner.startswith("/"):
+                    r["hasdir"] = True
+                    r["dir"] = [x for x in inner.split("/") if x]
+            elif e["code"] == "250" and len(lines) == 3 and lines[0].startswith("250-") and "=" in lines[1]:
+                facts, _, _name = lines[1].strip().partition(" ")
+                d = dict(f.split("=", 1) for f in facts.split(";") if "=" in f)
+                if "Type" in d:
+                    r["hasfacts"] = True
+                    r["ftype"] = d["Type"]
+                    try:
+                        r["fsize"] = int(d.get("Size", 0))
+                    except ValueError:
+                        r["fsize"] = -1
+                    if r["fsize"] >= 2 ** 31:
+                        r["hasfacts"] = False
+            out.append(r)
         elif ev == "DataOut":
             databuf.setdefault(e["conn"], bytearray()).extend(bytes(e["data"]))
             out.append({"ev": "DataOut", "s": s, "t": t, "data": e["data"]})
